@@ -395,3 +395,172 @@ def scale_scenarios():
     steps.append([{"op": "solve", "e": 1, "r": 4, "goal": C("dd", V(0), V(1)), "qnv": 2, "k": 0}])
     scns.append({"scripts": {}, "steps": steps, "keys": [{"n": "dd", "k": 2}]})
     return scns
+
+
+def scale_groups():
+    """more scenarios above the sizes of the enumerated cases, by theme; each check adds the themes its
+    property talks about.  Thresholds aimed at: arity > 256, > 32 / > 1024 facts under one key, > 200
+    zero-argument goals in one compilation unit, variable chains > 64, lists > 100, call/N with N > 8,
+    findall goals deeper than 200 Python frames, facts of > 256 nodes, scripts > 32 KiB."""
+    G = {}
+
+    def one(script, goal, qnv, k=0, keys=()):
+        steps = ([[{"op": "load", "e": 1, "script": "P", "ow": True}]] if script else []) + [[{"op": "solve", "e": 1, "r": 1, "goal": goal, "qnv": qnv, "k": k}]]
+        return {"scripts": {"P": script} if script else {}, "steps": steps, "keys": list(keys)}
+
+    # --- arity above 256
+    N = 300
+    vs = [V(i) for i in range(N)]
+    ints = [I(i) for i in range(N)]
+    G["arity"] = [one(None, C("=", C("f", *vs), C("f", *ints)), N),
+                  one(None, C("=", C("f", *ints), C("f", *(ints[:-1] + [I(0)]))), 0),
+                  one(None, C("=", C("f", *vs[:257]), C("f", *ints[:257])), 257),
+                  one(None, C("=", C("f", *ints[:257]), C("f", *ints[:258])), 0),
+                  one(None, C("\\=", C("f", *ints[:260]), C("f", *ints[:260])), 0)]
+    steps = [[{"op": "assert", "e": 1, "term": C("w300", *ints), "atEnd": True, "r": 0}],
+             [{"op": "assert", "e": 1, "term": C("w300", *vs), "atEnd": True, "r": 0}],
+             [{"op": "solve", "e": 1, "r": 1, "goal": C("w300", *([V(0)] * N)), "qnv": 1, "k": 0}],
+             [{"op": "solve", "e": 1, "r": 2, "goal": C("w300", *vs), "qnv": N, "k": 0}]]
+    G["arity"].append({"scripts": {}, "steps": steps, "keys": []})
+    # --- many zero-argument goals and foo() terms in one compilation unit
+    zs = {}
+    for i in range(48):
+        zs["st%d/0" % i] = [clause(A("st%d" % i), conj_(*[call(A("t%d" % (j % 3))) for j in range(7)]))]
+    for j in range(3):
+        zs["t%d/0" % j] = [clause(A("t%d" % j))]
+    zs["pick/2"] = [clause(C("pick", V(0), V(1)), conj_(call(A("st47")), call(C("col", V(0))), call(C("col", V(1))), call(C("\\=", V(0), V(1)))))]
+    zs["col/1"] = [clause(C("col", A("red"))), clause(C("col", A("green")))]
+    G["zero"] = [one(zs, A("st0"), 0), one(zs, A("st47"), 0), one(zs, C("pick", V(0), V(1)), 2)]
+    # --- long chains of variable-to-variable bindings, read at several answers
+    link = {"link/3": [clause(C("link", NIL, V(0), V(0))), clause(C("link", lst([V(900)], V(0)), V(1), V(2)), conj_(call(C("=", V(1), V(3))), call(C("link", V(0), V(3), V(2)))))],
+            "rlink/3": [clause(C("rlink", NIL, V(0), V(0))), clause(C("rlink", lst([V(900)], V(0)), V(1), V(2)), conj_(call(C("=", V(3), V(1))), call(C("rlink", V(0), V(3), V(2)))))],
+            "val/1": [clause(C("val", A("a"))), clause(C("val", A("b"))), clause(C("val", C("f", V(0))))],
+            "chain/2": [clause(C("chain", V(0), V(1)), conj_(call(C("link", lst([I(0)] * 80), V(0), V(2))), call(C("val", V(2))), call(C("=", V(1), C("got", V(0))))))],
+            "rchain/2": [clause(C("rchain", V(0), V(1)), conj_(call(C("rlink", lst([I(0)] * 70), V(0), V(2))), call(C("val", V(2))), call(C("=", V(1), C("got", V(0))))))]}
+    G["chain"] = [one(link, C("chain", V(0), V(1)), 2), one(link, C("rchain", V(0), V(1)), 2),
+                  one(link, C(",", C("link", lst([I(1)] * 90), V(0), V(1)), C("val", V(1))), 2)]
+    # --- call/N beyond 8, findall over deep goals
+    w12 = {"w12/12": [clause(C("w12", *[V(i) for i in range(12)]), conj_(*[call(C("=", V(i), I(i))) for i in range(0, 12, 3)])),
+                      clause(C("w12", *[A("k%d" % i) for i in range(12)]))],
+           "viacall/2": [clause(C("viacall", V(0), V(1)), call(C("call", C("w12", A("k0"), V(0)), *([V(900 + i) for i in range(9)] + [V(1)]))))]}
+    G["calln"] = [one(w12, C("call", A("w12"), *[V(i) for i in range(12)]), 12),
+                  one(w12, C("call", C("w12", V(0), V(1), V(2)), *[V(3 + i) for i in range(9)]), 12),
+                  one(w12, C("call", C("w12", A("k0")), *[V(i) for i in range(11)]), 11),
+                  one(w12, C("call", C("w12", I(0), V(0)), *[V(1 + i) for i in range(10)]), 11),
+                  one(w12, C("viacall", V(0), V(1)), 2),
+                  one(w12, C("call", A("w12"), *[V(i) for i in range(11)]), 11)]
+    mem = {"member/2": [clause(C("member", V(0), lst([V(0)], V(900)))), clause(C("member", V(0), lst([V(900)], V(1))), call(C("member", V(0), V(1))))],
+           "down/1": [clause(C("down", A("z"))), clause(C("down", C("s", V(0))), call(C("down", V(0))))],
+           "fa/1": [clause(C("fa", V(0)), call(C("findall", V(1), C("member", V(1), lst([I(i) for i in range(108)])), V(0))))],
+           "fd/1": [clause(C("fd", V(0)), call(C("findall", A("y"), C("down", _s(112)), V(0))))]}
+    L120 = lst([I(i) for i in range(110)])
+    G["findall"] = [one(mem, C("findall", V(0), C("member", V(0), L120), V(1)), 2), one(mem, C("fa", V(0)), 1), one(mem, C("fd", V(0)), 1),
+                    one(mem, C("findall", V(0), C(",", C("member", V(0), L120), C("member", V(0), lst([I(109), I(3)]))), V(1)), 2)]
+    # --- one large fact matched by two simultaneously suspended queries
+    bigf = C("bigf", lst([V(i % 7) for i in range(100)]), V(0), C("t", V(1), V(2)))
+    pat1 = C("bigf", V(0), A("one"), V(1))
+    pat2 = C("bigf", V(0), A("two"), C("t", A("x"), V(1)))
+    t1 = [{"op": "query", "e": 1, "r": 1, "goal": pat1, "qnv": 2, "t": 1}, {"op": "next", "r": 1, "t": 1}, {"op": "next", "r": 1, "t": 1}]
+    t2 = [{"op": "query", "e": 1, "r": 2, "goal": pat2, "qnv": 2, "t": 2}, {"op": "next", "r": 2, "t": 2}, {"op": "close", "r": 2, "how": "close", "t": 2}]
+    G["bigfact"] = [{"engines": 1, "scripts": {}, "keys": [], "threads": [t1, t2],
+                     "steps": [[{"op": "assert", "e": 1, "term": bigf, "atEnd": True, "r": 0, "t": 3}],
+                               [{"op": "assert", "e": 1, "term": C("bigf", lst([I(i) for i in range(105)]), V(0), V(0)), "atEnd": True, "r": 0, "t": 3}]]}]
+    # --- a script above 32 KiB in two engines
+    big = {}
+    for i in range(420):
+        big["bp%d/2" % i] = [clause(C("bp%d" % i, A("value_number_%d" % i), V(0)), call(C("=", V(0), C("result", I(i), A("of_a_long_script")))))]
+    big["cnt/1"] = [clause(C("cnt", V(0)), call(C("d", V(0))))]
+    big["upd/1"] = [clause(C("upd", V(0)), conj_(call(C("bp7", V(900), V(901))), call(C("assertz", C("d", V(0))))))]
+    ta = [{"op": "load", "e": 1, "script": "P", "ow": True, "t": 1}, {"op": "solve", "e": 1, "r": 1, "goal": C("upd", A("one")), "qnv": 0, "k": 0, "t": 1},
+          {"op": "solve", "e": 1, "r": 2, "goal": C("cnt", V(0)), "qnv": 1, "k": 0, "t": 1}]
+    tb = [{"op": "load", "e": 2, "script": "P", "ow": True, "t": 2}, {"op": "solve", "e": 2, "r": 11, "goal": C("upd", A("two")), "qnv": 0, "k": 0, "t": 2},
+          {"op": "solve", "e": 2, "r": 12, "goal": C("cnt", V(0)), "qnv": 1, "k": 0, "t": 2}, {"op": "solve", "e": 2, "r": 13, "goal": C("bp419", V(0), V(1)), "qnv": 2, "k": 0, "t": 2}]
+    G["bigscript"] = [{"engines": 2, "scripts": {"P": big}, "keys": [{"n": "d", "k": 1}], "steps": [], "threads": [ta, tb]}]
+    # --- more than 32 facts under one key, a suspended retract / enumeration and removals from outside
+    def manyfacts(n, stop_at, pre=None):
+        steps = [[{"op": "assertn", "e": 1, "name": "mf", "lo": 0, "n": n, "atEnd": True}]]
+        steps.append([{"op": "query", "e": 1, "r": 1, "goal": C("retract", C("mf", V(0))), "qnv": 1}, {"op": "query", "e": 1, "r": 1, "goal": C("mf", V(0)), "qnv": 1}])
+        steps += [[{"op": "next", "r": 1}]] * stop_at
+        steps.append([{"op": "solve", "e": 1, "r": 2, "goal": C("retract", C("mf", I(stop_at + 3))), "qnv": 0, "k": 0},
+                      {"op": "solve", "e": 1, "r": 2, "goal": C("retractall", C("mf", V(0))), "qnv": 1, "k": 0},
+                      {"op": "assert", "e": 1, "term": C("mf", A("first")), "atEnd": False, "r": 0},
+                      {"op": "clear", "e": 1}])
+        steps += [[{"op": "next", "r": 1}]] * 6
+        steps.append([{"op": "close", "r": 1, "how": "close"}])
+        steps.append([{"op": "solve", "e": 1, "r": 3, "goal": C("mf", V(0)), "qnv": 1, "k": 0}])
+        return {"scripts": {}, "steps": steps, "keys": []}
+    G["manyfacts"] = [manyfacts(40, 2), manyfacts(70, 34), manyfacts(36, 33)]
+    G["manyfacts-big"] = [manyfacts(1100, 1026)]
+    return G
+
+
+def _s(n):
+    t = A("z")
+    for _ in range(n):
+        t = C("s", t)
+    return t
+
+
+def _map_term(t, f):
+    if t["t"] == "v":
+        return f(t)
+    if t["t"] == "c":
+        return {"t": "c", "n": t["n"], "a": [_map_term(a, f) for a in t["a"]]}
+    return t
+
+
+def _map_body(b, f):
+    k = b["b"]
+    if k == "call":
+        return {"b": "call", "g": _map_term(b["g"], f)}
+    if k in ("and", "or"):
+        return {"b": k, "l": _map_body(b["l"], f), "r": _map_body(b["r"], f)}
+    if k == "then":
+        return {"b": k, "c": _map_body(b["c"], f), "t": _map_body(b["t"], f)}
+    if k == "not":
+        return {"b": k, "g": _map_body(b["g"], f)}
+    return b
+
+
+def _count_vars(t, acc):
+    if t["t"] == "v":
+        acc[t["id"]] = acc.get(t["id"], 0) + 1
+    elif t["t"] == "c":
+        for a in t["a"]:
+            _count_vars(a, acc)
+
+
+def _count_body(b, acc):
+    k = b["b"]
+    if k == "call":
+        _count_vars(b["g"], acc)
+    elif k in ("and", "or"):
+        _count_body(b["l"], acc); _count_body(b["r"], acc)
+    elif k == "then":
+        _count_body(b["c"], acc); _count_body(b["t"], acc)
+    elif k == "not":
+        _count_body(b["g"], acc)
+
+
+def anonymise(scn, rnd, p=0.8):
+    """variables that occur once in their clause become anonymous (`_`): same program for the specification
+    (an id of its own), another spelling for the compiler"""
+    out = dict(scn)
+    out["scripts"] = {}
+    for name, script in scn.get("scripts", {}).items():
+        ns = {}
+        for key, cls in script.items():
+            ncl = []
+            for c in cls:
+                cnt = {}
+                _count_vars(c["h"], cnt); _count_body(c["body"], cnt)
+                ren = {}
+                base = max([v for v in cnt if v >= ANON] + [ANON - 1]) + 1
+                for v, n in cnt.items():
+                    if n == 1 and v < ANON and rnd.random() < p:
+                        ren[v] = base + len(ren)
+                f = lambda t: V(ren.get(t["id"], t["id"]))
+                ncl.append(clause(_map_term(c["h"], f), _map_body(c["body"], f)))
+            ns[key] = ncl
+        out["scripts"][name] = ns
+    return out
